@@ -72,6 +72,8 @@ def expected_facet(S, kind, cond, d, f, fun, comps, time, rows, w):
     uv = u(*pts, S.params)
     gpts = (grid[..., 0:1], grid[..., 1:]) if time else (grid,)
     fv = to_at(fun(*gpts))
+    if fv.axes and all(not isinstance(a, int) or a != 1 for a in fv.axes[-1:]) and len(fv.axes) == len(uv.axes) - 1:
+        fv = fv[..., None]        # a grid-shaped value without component axis is one value per grid point
     if cond == 'dirichlet':
         res = jnp_stack([uv[..., c] for c in comps], -1) - fv
     else:
@@ -102,7 +104,8 @@ def run(chk):
             for d in (1, 2):
                 for cond in ('dirichlet', 'von neumann'):
                     variants = []
-                    rets = ('vector', 'scalar0d', 'pyscalar') if kind == 'PINN' else ('vector',)
+                    # for a SPINN 'scalar0d' is a grid-shaped value without the trailing component axis
+                    rets = ('vector', 'scalar0d', 'pyscalar')
                     if cond == 'dirichlet':
                         variants += [(1, None, r) for r in rets]
                         variants += [(2, None, 'vector'), (2, 1, 'vector')]
@@ -112,7 +115,7 @@ def run(chk):
                         variants += [(1, None, r) for r in rets]
                         variants += [(2, slice(1, 2), 'vector')]
                         if thorough:
-                            variants += [(2, 0, 'vector'), (3, slice(2, 3), 'scalar0d' if kind == 'PINN' else 'vector')]
+                            variants += [(2, 0, 'vector'), (3, slice(2, 3), 'scalar0d')]
                     for m_u, dim, ret in variants:
                         cfg = {"loss": eq_type, "net": kind, "d": d, "condition": cond, "outputs": m_u, "dim": str(dim), "f_returns": ret}
 
